@@ -276,6 +276,12 @@ func (s *Spec) script(r *simfw.RNG, op string, mk string) (simenv.Script, string
 	if r.Chance(1, 6) {
 		add(simenv.HOp{Op: "readall"})
 	}
+	if r.Chance(1, 12) && len(ops) > 0 {
+		// the handler crashes somewhere along the way
+		at := r.Intn(len(ops) + 1)
+		ops = append(ops[:at:at], simenv.HOp{Op: "abort"})
+		intent = "aborted"
+	}
 	return simenv.Script{Ops: ops}, intent
 }
 
@@ -468,6 +474,19 @@ func Gen(seed uint64, tier string) *Spec {
 	for i := 0; i < n; i++ {
 		last := i == n-1
 		s.Reqs = append(s.Reqs, s.request(r, i, !last))
+	}
+	// the last request of a history is fault-free: no handler crash
+	if n := len(s.Reqs); n > 0 {
+		var kept []simenv.HOp
+		for _, op := range s.Reqs[n-1].Script.Ops {
+			if op.Op != "abort" {
+				kept = append(kept, op)
+			}
+		}
+		s.Reqs[n-1].Script.Ops = kept
+		if s.Reqs[n-1].RespIntent == "aborted" {
+			s.Reqs[n-1].RespIntent = "unknown"
+		}
 	}
 	// an "invalid:auth" request needs a failing callback to be invalid
 	for i := range s.Reqs {
